@@ -144,6 +144,7 @@ func (x *Exec) loadVar(st *State, v *types.Var) Term {
 
 func (x *Exec) storeVar(st *State, v *types.Var, val Term) {
 	if x.isGlobal(v) {
+		x.writeAt(st, globalName(v), intLit(0), false)
 		x.heapSet(st, globalName(v), val)
 		return
 	}
@@ -195,6 +196,7 @@ func (x *Exec) storePtr(st *State, p Term, elem types.Type, val Term) {
 			f := &si.Fields[i]
 			hn := fieldHeapName(si, f)
 			h := x.heapGet(st, hn, arraySort(SInt, f.Sort))
+			x.writeAt(st, hn, p, false)
 			x.heapSet(st, hn, store(h, p, x.structField(val, si, i)))
 		}
 		return
@@ -202,6 +204,7 @@ func (x *Exec) storePtr(st *State, p Term, elem types.Type, val Term) {
 	s := x.sortOf(elem)
 	hn := ptrHeapName(s)
 	h := x.heapGet(st, hn, arraySort(SInt, s))
+	x.writeAt(st, hn, p, false)
 	x.heapSet(st, hn, store(h, p, val))
 }
 
@@ -595,6 +598,8 @@ func (x *Exec) mapStore(st *State, m, k, v Term, mt *types.Map, pos token.Pos) {
 	hn, vn := mh.has, mh.val
 	H := x.heapGet(st, hn, arraySort(SInt, arraySort(ks, SBool)))
 	V := x.heapGet(st, vn, arraySort(SInt, arraySort(ks, vs)))
+	x.writeAt(st, hn, m, false)
+	x.writeAt(st, vn, m, false)
 	x.heapSet(st, hn, store(H, m, store(sel(H, m), k, tTrue)))
 	x.heapSet(st, vn, store(V, m, store(sel(V, m), k, v)))
 }
@@ -606,6 +611,7 @@ func (x *Exec) mapDelete(st *State, m, k Term, mt *types.Map) {
 	hn := mh.has
 	H := x.heapGet(st, hn, arraySort(SInt, arraySort(ks, SBool)))
 	// delete on a nil map is a no-op; writing at reference 0 keeps nil maps empty only if we guard
+	x.writeAt(st, hn, m, false)
 	x.heapSet(st, hn, ite(eq(m, intLit(0)), H, store(H, m, store(sel(H, m), k, tFalse))))
 }
 
